@@ -125,57 +125,57 @@ func c06Line(l string) string {
 
 // ---- recording / validating backend ----
 
-type recCall struct {
+type srvRecCall struct {
 	method string
 	args   []string
 	bad    string // non-empty: an argument that is not syntactically valid
 }
 
-type recBackend struct {
+type srvRecBackend struct {
 	*ociregistry.Funcs
 	fail    bool
-	calls   []recCall
+	calls   []srvRecCall
 	opened  int
 	closed  int
 	content []byte
 }
 
-type recReader struct {
+type srvRecReader struct {
 	io.Reader
-	b    *recBackend
+	b    *srvRecBackend
 	desc ociregistry.Descriptor
 	done bool
 }
 
-func (r *recReader) Close() error {
+func (r *srvRecReader) Close() error {
 	if !r.done {
 		r.done = true
 		r.b.closed++
 	}
 	return nil
 }
-func (r *recReader) Descriptor() ociregistry.Descriptor { return r.desc }
+func (r *srvRecReader) Descriptor() ociregistry.Descriptor { return r.desc }
 
-type recWriter struct {
-	b    *recBackend
+type srvRecWriter struct {
+	b    *srvRecBackend
 	id   string
 	n    int64
 	done bool
 }
 
-func (w *recWriter) Write(p []byte) (int, error) { w.n += int64(len(p)); return len(p), nil }
-func (w *recWriter) Close() error {
+func (w *srvRecWriter) Write(p []byte) (int, error) { w.n += int64(len(p)); return len(p), nil }
+func (w *srvRecWriter) Close() error {
 	if !w.done {
 		w.done = true
 		w.b.closed++
 	}
 	return nil
 }
-func (w *recWriter) Size() int64    { return w.n }
-func (w *recWriter) ChunkSize() int { return 16 }
-func (w *recWriter) ID() string     { return w.id }
-func (w *recWriter) Cancel() error  { return nil }
-func (w *recWriter) Commit(d ociregistry.Digest) (ociregistry.Descriptor, error) {
+func (w *srvRecWriter) Size() int64    { return w.n }
+func (w *srvRecWriter) ChunkSize() int { return 16 }
+func (w *srvRecWriter) ID() string     { return w.id }
+func (w *srvRecWriter) Cancel() error  { return nil }
+func (w *srvRecWriter) Commit(d ociregistry.Digest) (ociregistry.Descriptor, error) {
 	w.b.record("Commit", "", "", string(d))
 	if w.b.fail {
 		return ociregistry.Descriptor{}, ociregistry.ErrDigestInvalid
@@ -183,8 +183,8 @@ func (w *recWriter) Commit(d ociregistry.Digest) (ociregistry.Descriptor, error)
 	return ociregistry.Descriptor{MediaType: "application/octet-stream", Digest: d, Size: w.n}, nil
 }
 
-func (b *recBackend) record(method, repo, tag, dig string, more ...string) {
-	c := recCall{method: method, args: append([]string{repo, tag, dig}, more...)}
+func (b *srvRecBackend) record(method, repo, tag, dig string, more ...string) {
+	c := srvRecCall{method: method, args: append([]string{repo, tag, dig}, more...)}
 	if method != "Repositories" && method != "Commit" && !ociref.IsValidRepository(repo) {
 		c.bad = "repository " + strconv.Quote(repo)
 	}
@@ -197,7 +197,7 @@ func (b *recBackend) record(method, repo, tag, dig string, more ...string) {
 	b.calls = append(b.calls, c)
 }
 
-func (b *recBackend) reader(n int) (ociregistry.BlobReader, error) {
+func (b *srvRecBackend) reader(n int) (ociregistry.BlobReader, error) {
 	if b.fail {
 		return nil, ociregistry.ErrBlobUnknown
 	}
@@ -206,18 +206,18 @@ func (b *recBackend) reader(n int) (ociregistry.BlobReader, error) {
 	if n >= 0 && n < len(data) {
 		data = data[:n]
 	}
-	return &recReader{Reader: bytes.NewReader(data), b: b, desc: ociregistry.Descriptor{MediaType: "application/octet-stream", Digest: ociregistry.Digest(sha256Digest(b.content)), Size: int64(len(b.content))}}, nil
+	return &srvRecReader{Reader: bytes.NewReader(data), b: b, desc: ociregistry.Descriptor{MediaType: "application/octet-stream", Digest: ociregistry.Digest(sha256Digest(b.content)), Size: int64(len(b.content))}}, nil
 }
 
-func (b *recBackend) desc() (ociregistry.Descriptor, error) {
+func (b *srvRecBackend) desc() (ociregistry.Descriptor, error) {
 	if b.fail {
 		return ociregistry.Descriptor{}, ociregistry.ErrManifestUnknown
 	}
 	return ociregistry.Descriptor{MediaType: "application/vnd.oci.image.manifest.v1+json", Digest: ociregistry.Digest(sha256Digest(b.content)), Size: int64(len(b.content))}, nil
 }
 
-func newRecBackend(fail bool) *recBackend {
-	b := &recBackend{fail: fail, content: []byte("0123456789")}
+func newSrvRecBackend(fail bool) *srvRecBackend {
+	b := &srvRecBackend{fail: fail, content: []byte("0123456789")}
 	seqErr := func() ociregistry.Seq[string] {
 		if fail {
 			return ociregistry.ErrorSeq[string](ociregistry.ErrNameUnknown)
@@ -242,7 +242,7 @@ func newRecBackend(fail bool) *recBackend {
 				return nil, fmt.Errorf("bad range")
 			}
 			b.opened++
-			return &recReader{Reader: bytes.NewReader(b.content[o0:o1]), b: b, desc: ociregistry.Descriptor{MediaType: "application/octet-stream", Digest: ociregistry.Digest(sha256Digest(b.content)), Size: n}}, nil
+			return &srvRecReader{Reader: bytes.NewReader(b.content[o0:o1]), b: b, desc: ociregistry.Descriptor{MediaType: "application/octet-stream", Digest: ociregistry.Digest(sha256Digest(b.content)), Size: n}}, nil
 		},
 		GetManifest_: func(ctx context.Context, repo string, d ociregistry.Digest) (ociregistry.BlobReader, error) {
 			b.record("GetManifest", repo, "", string(d))
@@ -278,7 +278,7 @@ func newRecBackend(fail bool) *recBackend {
 				return nil, ociregistry.ErrDenied
 			}
 			b.opened++
-			return &recWriter{b: b, id: "upload-1"}, nil
+			return &srvRecWriter{b: b, id: "upload-1"}, nil
 		},
 		PushBlobChunkedResume_: func(ctx context.Context, repo, id string, offset int64, chunkSize int) (ociregistry.BlobWriter, error) {
 			b.record("PushBlobChunkedResume", repo, "", "", id, fmt.Sprint(offset))
@@ -286,7 +286,7 @@ func newRecBackend(fail bool) *recBackend {
 				return nil, ociregistry.ErrBlobUploadUnknown
 			}
 			b.opened++
-			return &recWriter{b: b, id: id}, nil
+			return &srvRecWriter{b: b, id: id}, nil
 		},
 		MountBlob_: func(ctx context.Context, from, to string, d ociregistry.Digest) (ociregistry.Descriptor, error) {
 			b.record("MountBlob", to, "", string(d), from)
@@ -350,7 +350,7 @@ type served struct {
 	status    int
 	header    http.Header
 	body      []byte
-	calls     []recCall
+	calls     []srvRecCall
 	opened    int
 	closed    int
 	skipped   string
@@ -438,13 +438,13 @@ func c06Serve(t []string) *served {
 		opts.MaxListPageSize = 2
 	}
 	var backend ociregistry.Interface
-	var rec *recBackend
+	var rec *srvRecBackend
 	switch backendKind {
 	case "rec":
-		rec = newRecBackend(false)
+		rec = newSrvRecBackend(false)
 		backend = rec
 	case "recfail":
-		rec = newRecBackend(true)
+		rec = newSrvRecBackend(true)
 		backend = rec
 	default:
 		backend = c06MemBackend()
